@@ -8,7 +8,8 @@ included); the document is a symbolic choice among real valid documents. The ref
 (segment, matched map node) sequence that the validator's callback reports for the same document.
  * concatenating what is yielded gives the source segments in source order (no loss, no duplication, no reordering);
  * every tree is rooted at one instance of the requested loop and holds exactly that instance's segments;
- * inside a tree every segment hangs under child loops spelling the rest of its map path;
+ * inside a tree every segment hangs under child loops spelling the rest of its map path, and two segments share a child loop node
+   exactly when they belong to the same loop instance (a repeated GS_LOOP / ST_LOOP / body loop gets a node of its own);
  * every yielded segment carries its position in the set and its source line.
 A one-step lemma covers _add_segment for arbitrary (pop, push) lists on real map nodes (see add_segment_step).
 """
@@ -194,12 +195,13 @@ OBLIGATIONS = [
 
 LEVEL = 'other'
 EXPLANATION = __doc__
-BOUNDS = ('documents: the synthetic 997 and 999 and the 24-segment 834 (quick); + 834 5010, 835, 837P and a repeated-initial-segment document (thorough); '
+BOUNDS = ('documents: the synthetic 997 and 999, a 997 file of 2 interchanges x 2 groups x 2 sets, the 24-segment 834, the 835 and a repeated-initial-segment document (quick); + 834 5010, 837P and the multi-group 999 (thorough); '
           'requested loop: None and every loop id on the map paths the document matched (envelope loops included).')
 OUTSIDE = ('documents other than the listed ones; loop ids that do not occur in the document; documents with structural errors; 278 with a map switch at BHT.')
 ASSUMPTIONS = [
     'reference partition = the (segment, matched node) sequence reported by x12n_document\'s callback for the same text (independent of x12context)',
     'the document is concrete per obligation; the symbolic input is the requested loop id (a choice)',
+    'loop instances: a new instance of a loop starts at a segment that is the first segment of that loop (or when the loop is entered from outside); child loop nodes of a tree must be in bijection with these reference instances',
 ]
 FUNCTIONS = ['pyx12/x12context.py:X12ContextReader.iter_segments', 'pyx12/x12context.py:X12ContextReader._add_segment',
              'pyx12/x12context.py:X12LoopDataNode._add_loop_node', 'pyx12/x12context.py:X12LoopDataNode.iterate_segments',
